@@ -1,6 +1,7 @@
 pub mod case;
 pub mod interp;
 pub mod shapes;
+pub mod t2;
 pub mod vraw;
 
 pub fn silence_panics() {
